@@ -60,8 +60,27 @@ func (x *Exec) specEnvEntry(s *State) *SpecEnv {
 
 // specEnvFrame: environment for loop invariants inside the current frame.
 func (x *Exec) specEnvFrame(s *State) *SpecEnv {
+	return x.specEnvOf(s, s.top())
+}
+
+// clauseFrame: the frame whose contract speaks for the code being executed —
+// the top frame, unless that is a contract-less helper taken by its body
+// (auto-inlined); then the nearest enclosing frame that has a contract or is
+// the function under verification. Its at-call / at-send / on-recv clauses keep
+// applying to calls and channel operations that an edit moved into a helper.
+func (x *Exec) clauseFrame(s *State) *Frame {
+	for i := len(s.frames) - 1; i >= 0; i-- {
+		fr := s.frames[i]
+		if fr.fn == x.fn || x.P.contractFor(fr.fn) != nil {
+			return fr
+		}
+	}
+	return s.top()
+}
+
+func (x *Exec) specEnvOf(s *State, fr *Frame) *SpecEnv {
 	env := x.specEnv(s, nil)
-	env.frame = s.top()
+	env.frame = fr
 	if env.frame.fn != x.fn {
 		env.vars = map[string]Val{}
 		env.fn = env.frame.fn
